@@ -73,12 +73,44 @@ def derived(c):
     return d
 
 
+# ----------------------------------------------------------------------------- argument forms
+INT_FORMS = {"int": int, "i64": np.int64, "i32": np.int32}       # cfg.ity: type of every integer-like argument
+CONTAINERS = {"list": list, "tuple": tuple}                         # cfg.ct : container of the operand list
+SCALES = {0: 1.0, 1: 0.5, 2: float(2**26 + 1)}                      # cfg.sc : per-operand scale codes (see Multilinear.tla)
+
+
+def operand_types(dt, cplx, real_only=False):
+    """(dtype of the first operand, dtype of every other operand) for cfg.dt and the kind of draw."""
+    cplx = cplx and not real_only
+    f, c = (np.complex128, np.complex128) if cplx else (np.float64, np.float64)
+    if dt == "same":
+        return f, f
+    if dt == "int_f":
+        return np.int64, f
+    if dt == "f32_f64":
+        return (np.complex64 if cplx else np.float32), f
+    if real_only:
+        raise ValueError("complex dtype combination for a real-only operation")
+    if dt == "real_cplx":
+        return np.float64, np.complex128
+    if dt == "cplx_real":
+        return np.complex128, np.float64
+    raise ValueError(dt)
+
+
 # ----------------------------------------------------------------------------- drawing / projection
-def draw(rng, shape, cplx):
+def draw(rng, shape, dtype):
+    """Integer values in -3..3 (Gaussian integers for a complex dtype), as float64 / complex128: the LOGGED values."""
     a = rng.randint(-3, 4, size=tuple(shape)).astype(np.float64)
-    if cplx:
+    if np.issubdtype(dtype, np.complexfloating):
         a = a + 1j * rng.randint(-3, 4, size=tuple(shape))
     return a
+
+
+def passed(a, dtype, code):
+    """The operand actually handed to tensorly: logged values times the scale of its code, in its dtype."""
+    wide = np.complex128 if np.iscomplexobj(a) else np.float64
+    return (a * SCALES[code]).astype(wide).astype(dtype)
 
 
 def enc(a):
@@ -88,17 +120,31 @@ def enc(a):
     return {"shape": [int(x) for x in a.shape], "re": re, "im": im}
 
 
-def proj(a, scale=1):
+def _unscale(x, total):
+    """x / total where total is a product of operand scales: exact iff the quotient is an integer array."""
+    x = np.asarray(x, dtype=np.float64)
+    if total == 1.0:
+        return ints(x)
+    if not np.all(np.isfinite(x)):
+        return [0] * x.size, False
+    q = np.rint(x / total)
+    vals, ok = ints(q)
+    return vals, bool(ok and np.all(q * total == x))
+
+
+def proj(a, scale=1, total=1.0):
+    """Result -> integers.  `scale`: multiply first (moments: n_samples); `total`: product of the operand
+    scales the configuration prescribes, divided out exactly."""
     a = np.asarray(a)
     if a.dtype == object:
         raise TypeError("object array returned")
     if scale != 1:
         a = a * scale
     if np.iscomplexobj(a):
-        re, e1 = ints(a.real)
-        im, e2 = ints(a.imag)
+        re, e1 = _unscale(a.real, total)
+        im, e2 = _unscale(a.imag, total)
     else:
-        re, e1 = ints(a)
+        re, e1 = _unscale(a, total)
         im, e2 = [0] * a.size, True
     return {"kind": "value", "exc": "none", "exact": bool(e1 and e2), "shape": [int(x) for x in a.shape],
             "re": re, "im": im, "dtype": str(a.dtype)}
@@ -112,39 +158,41 @@ RAISED = {"kind": "raised", "exact": True, "shape": [], "re": [], "im": [], "dty
 def call(c, ts, w, mask, idx, rs):
     from tensorly import tenalg
     op = c["op"]
-    none = lambda v: None if v < 0 else v
+    I = INT_FORMS[c["ity"]]                  # how integer-like arguments are passed
+    C = CONTAINERS[c["ct"]]                  # how operand lists are passed
+    none = lambda v: None if v < 0 else I(v)
     if op == "mode_dot":
-        return tenalg.mode_dot(ts[0], ts[1], c["mode"], transpose=c["tr"])
+        return tenalg.mode_dot(ts[0], ts[1], I(c["mode"]), transpose=c["tr"])
     if op == "multi_mode_dot":
-        return tenalg.multi_mode_dot(ts[0], list(ts[1:]), modes=list(c["modes"]) if c["given"] else None,
+        return tenalg.multi_mode_dot(ts[0], C(ts[1:]), modes=[I(m) for m in c["modes"]] if c["given"] else None,
                                      skip=none(c["skip"]), transpose=c["tr"])
     if op == "kronecker":
-        return tenalg.kronecker(list(ts), skip_matrix=none(c["skip"]), reverse=c["reverse"])
+        return tenalg.kronecker(C(ts), skip_matrix=none(c["skip"]), reverse=c["reverse"])
     if op == "khatri_rao":
-        return tenalg.khatri_rao(list(ts), weights=w, skip_matrix=none(c["skip"]), mask=mask)
+        return tenalg.khatri_rao(C(ts), weights=w, skip_matrix=none(c["skip"]), mask=mask)
     if op == "inner":
         return tenalg.inner(ts[0], ts[1], n_modes=none(c["n"]))
     if op == "outer":
-        return tenalg.outer(list(ts))
+        return tenalg.outer(C(ts))
     if op == "batched_outer":
-        return tenalg.batched_outer(list(ts))
+        return tenalg.batched_outer(C(ts))
     if op == "tensordot":
         # the configuration carries the mode numbers AS SPELLED (negative = counted from the end, cfg.neg
         # says which arguments); the specification normalises them
-        modes = len(c["m1"]) if c["mint"] else (list(c["m1"]), list(c["m2"]))
-        batched = c["b1"][0] if c["bint"] else (list(c["b1"]), list(c["b2"]))
+        modes = I(len(c["m1"])) if c["mint"] else ([I(m) for m in c["m1"]], [I(m) for m in c["m2"]])
+        batched = I(c["b1"][0]) if c["bint"] else ([I(m) for m in c["b1"]], [I(m) for m in c["b2"]])
         return tenalg.tensordot(ts[0], ts[1], modes, batched_modes=batched)
     if op == "mttkrp":
         if c["variant"] == "memory":
             from tensorly.tenalg.core_tenalg.mttkrp import unfolding_dot_khatri_rao_memory as f
         else:
             f = tenalg.unfolding_dot_khatri_rao
-        return f(ts[0], (w, list(ts[1:])), c["mode"])
+        return f(ts[0], (w, C(ts[1:])), I(c["mode"]))
     if op == "moment":
-        return tenalg.higher_order_moment(ts[0], c["order"])
+        return tenalg.higher_order_moment(ts[0], I(c["order"]))
     if op == "sampled_kr":
         from tensorly.decomposition._cp import sample_khatri_rao
-        return sample_khatri_rao(list(ts), c["ns"], skip_matrix=none(c["skip"]), indices_list=idx,
+        return sample_khatri_rao(C(ts), I(c["ns"]), skip_matrix=none(c["skip"]), indices_list=idx,
                                  return_sampled_rows=True, random_state=rs)
     raise ValueError(op)
 
@@ -155,17 +203,28 @@ def execute(case):
     op = c["op"]
     cplx = case["cplx"]
     rng = np.random.RandomState(zlib.crc32(("%d/%d/%d" % (case["seed"], case["k"], case["draw"])).encode()) & 0x7FFFFFFF)
-    ts = [draw(rng, s, cplx) for s in in_shapes(c)]
+    shapes = in_shapes(c)
+    sc = list(c["sc"])                                       # scale codes: operands.., weights, mask
+    t_first, t_other = operand_types(c["dt"], cplx, real_only=(op == "moment"))
+    types = [t_first] + [t_other] * (len(shapes) - 1)
+    logged = [draw(rng, s, t) for s, t in zip(shapes, types)]
+    ts = [passed(a, t, code) for a, t, code in zip(logged, types, sc)]
+    total = 1.0
+    for code in sc:
+        total *= SCALES[code]
     w = mask = idx = None
     # absent operands keep their type (TLC cannot compare a record / sequence with a string):
     # an absent tensor is the record with shape [0] and no entries, absent indices the empty list
-    ein = {"ts": [enc(t) for t in ts], "w": ABSENT, "mask": ABSENT, "idx": []}
+    ein = {"ts": [enc(t) for t in logged], "w": ABSENT, "mask": ABSENT, "idx": []}
     if op in ("khatri_rao", "mttkrp") and c["w"]:
-        w = draw(rng, [c["R"]], cplx and op == "khatri_rao")     # CP weights of an MTTKRP are real
-        ein["w"] = enc(w)
+        t_w = t_other if op == "khatri_rao" else np.float64      # CP weights of an MTTKRP are real
+        lw = draw(rng, [c["R"]], t_w)
+        w = passed(lw, t_w, sc[len(shapes)])
+        ein["w"] = enc(lw)
     if op == "khatri_rao" and c["mask"]:
-        mask = draw(rng, _skip(c["rows"], c["skip"]), cplx)
-        ein["mask"] = enc(mask)
+        lm = draw(rng, _skip(c["rows"], c["skip"]), t_other)
+        mask = passed(lm, t_other, sc[len(shapes) + 1])
+        ein["mask"] = enc(lm)
     if op == "sampled_kr" and c["given"]:
         idx = [rng.randint(0, r, size=c["ns"]) for r in _skip(c["rows"], c["skip"])]
         ein["idx"] = [[int(v) for v in ix] for ix in idx]
@@ -178,19 +237,19 @@ def execute(case):
             res = call(c, ts, w, mask, idx, rs)
             if op == "sampled_kr":
                 kr, indices, rows = res
-                out = proj(kr)
+                out = proj(kr, total=total)
                 out["idx"] = [[int(v) for v in np.asarray(ix).ravel()] for ix in indices]
                 out["rows"] = [int(v) for v in np.asarray(rows).ravel()]
             elif op == "moment":
                 # the specification states  n_samples * moment = sum of outer products  (integers)
                 n = c["shape"][0]
-                out = proj(res, scale=n)
+                out = proj(res, scale=n, total=total)
                 if not out["exact"]:      # fl(S / n) * n may be off by an ulp for n = 3: named tolerance 1e-9
                     a = np.asarray(res, dtype=np.float64) * n
                     if np.all(np.isfinite(a)) and np.all(np.abs(a - np.rint(a)) <= 1e-9):
                         out["exact"] = True
             else:
-                out = proj(res)
+                out = proj(res, total=total)
         except Exception as ex:                  # the outcome is data for the specification (clause Outcome)
             out = dict(RAISED, exc=type(ex).__name__, msg=str(ex)[:160])
     finally:
@@ -263,8 +322,14 @@ def run(chk, opts):
         "NumPy backend only; tenalg backends core and einsum",
         "operand values are random integers in -3..3 (float64 / complex128): a multilinear map that agrees with the formula on generic "
         "draws agrees everywhere with overwhelming probability, but this is sampling of VALUES (shapes/options are enumerated)",
-        "both tiers enumerate a spec-defined thinning (linear hash) of the full shape x option product, not the full product",
+        "both tiers enumerate a spec-defined thinning (polynomial hash) of the full shape x option product, not the full product",
         "negative mode numbers are covered for tensordot (modes / batched_modes, cfg.neg) only: the other operations do not promise them",
+        "argument forms (cfg.ity / cfg.dt / cfg.ct: Python vs NumPy integers, operand dtype combinations, list vs tuple) are rotated over "
+        "the configurations by the specification, one combination per configuration; excluded because the unchanged tree fails on them "
+        "and the docstrings do not promise them: tensordot(modes=k / batched_modes=k) with k a NumPy integer (TypeError in both backends), "
+        "einsum khatri_rao(tuple, weights=w) without skip_matrix (TypeError)",
+        "dtype combinations: values stay exact because float operands carry dyadic scales prescribed by the specification (cfg.sc); the "
+        "result dtype itself is not checked here (C18)",
         "higher_order_moment on real data only; MTTKRP with real weights only; tensordot output mode order: two readings accepted",
     ]
 
